@@ -526,11 +526,17 @@ def oracle(inp):
     outcome, wire = out[0], out[1]
     if impl in (5, 6, 7, 9):
         import realio
+        import c04_real
+        out = c04_real.run(inp, force=True)
+        outcome, wire = out[0], out[1]
         want = b"".join(realio.chunk_bytes(c) for c in chunks)
         if outcome == 0 and wire != realio.digest(want):
             return f"returned but the peer received {wire} (length, checksum) instead of {realio.digest(want)}"
         if outcome in (8, 9):
             return "send does not terminate (real socket)"
+        if outcome == 1:
+            return (f"TimeoutError after {realio.SHORT if realio.STUCK['flag'] else realio.LIMIT} s of real time on a healthy real "
+                    "connection whose peer reads everything: the sender does not make progress")
         if outcome != 0:
             return f"unexpected exception class (code {outcome}) on a healthy real connection"
         return None
@@ -538,7 +544,8 @@ def oracle(inp):
     if outcome == 9:
         return f"send does not terminate: socket called more than {fuel_bound(chunks, sscript)} times, wire={wire!r}"
     if outcome == 8:
-        return "send does not terminate: hang outside the socket calls"
+        return ("send does not terminate: the call is suspended for ever although every byte has been taken (nothing left "
+                "that could wake it up)" if impl in (3, 4, 12) else "send does not terminate: hang outside the socket calls")
     if outcome == 0 and wire != want:
         return f"returned but the peer read {wire!r} instead of {want!r}"
     if outcome != 0 and not want.startswith(wire):
@@ -553,6 +560,11 @@ def oracle(inp):
         return f"unexpected exception class (code {outcome})"
     if outcome == 3 and not (iosim.sx_tmo(T) is not None and iosim.sx_tmo(T) < 0):
         return "ValueError for a valid timeout"
+    if impl in (0, 1, 2):
+        # a send that would block on writing waits for writability (SSL: whatever the SSL object asked for)
+        f = iosim.event_failure(out[2], [1 if a[0] in (1, 2) else 0 for a in sscript if a[0] in (1, 2, 3, 4)], "send")
+        if f:
+            return f
     if impl in (0, 1, 2) and all(a[2] == 0 for a in sscript):
         # "within its time budget": before each wait at most what is left of T is requested (C11's statement, checked
         # here too so that a send path that ignores the remaining timeout yields a failing input)
@@ -747,6 +759,12 @@ def cases(tier, rng, escalate):
             yield real_case(path, rng.choice([1, 2, 1024]) if path == 5 else 1024, specs, impl,
                             rng.choice([0, 4096, 4096, 16384]), rng.choice([512, 4096, 65536]), rng.choice([0, 0, 20]),
                             rng.choice([12, 13]), rng.choice([None, 1024]))
+    # async TLS on a real SSLObject with more than 256 KiB of ciphertext pending at once (several 100 KB chunks written in
+    # one pass of the backlog loop): every flush of the outgoing BIO must send ALL of it
+    for ver in (12, 13):
+        specs = [(rng.randrange(1, 2 ** 30), 100000), b"", (rng.randrange(1, 2 ** 30), 100000), (rng.randrange(1, 2 ** 30), 100000),
+                 bytes([1, 2, 3])]
+        yield real_case(7, 1024, specs, 9, 0, 4096, 0, ver, None)
     # small real cases: every list of <= 2 chunks over lengths {0,1,3}, every real transport
     for lengths in [l for l in lists if len(l) <= 2]:
         for impl, path in ((5, 5), (6, 5), (7, 6), (9, 7)):
